@@ -3,7 +3,10 @@
    case  = ( (lvpm hbits lmpe brl ldiff) layers rowtab coltab (stage ...) go-only-params )
    rowtab = per value id: per layer: per map index m: rowIndex(m, layer, value)   (real function)
    coltab = per value id: per log value index lv: columnIndex(lv, value)         (real function)
-   stage = ( history cutoff chain (query ...) race-flag )
+   stage = ( history cutoff chain (query ...) race-flag [trans] )
+   trans = () | ( (begin end (addr ...) ((topic ...) ...) tick ((validFirst validAfterLast) ...)) )
+           a range query running while the chain moves from the previous stage's chain to this one;
+           obs: (9 trace-echo result) appended to the stage-obs
    chain = ( block ... ) from genesis, block = ( log ... ), log = ( tx idx addr (topic ...) )
    query = (0 begin end (addr ...) ((topic ...) ...))     range filter (begin/end as given to NewRangeFilter)
          | (1 number (addr ...) ((topic ...) ...))         block-hash filter, canonical block [number]
@@ -99,21 +102,62 @@ Definition run_query (chain : list (list log)) (ix : index) (rg : irange) (head 
   | _ => SErr 3
   end.
 
-Definition run_stage (s : sx) : sx :=
-  match s with
-  | SL [h; c; ch; SL qs; _] =>
+(* the transition query of a stage: it runs while the chain moves from the previous
+   stage's world to this one (switch right before environment call [tick]) *)
+Definition dec_rng (s : sx) : option (N * N) :=
+  match s with SL [a; b] => match sx_N a, sx_N b with Some a, Some b => Some (a, b) | _, _ => None end
+  | _ => None end.
+Definition dec_bound (z : Z) : option (option N) :=
+  match z with (-2)%Z => Some None | Zneg _ => None | _ => Some (Some (Z.to_N z)) end.
+Definition enc_dres (r : dres (list log)) : sx :=
+  match r with
+  | DOk ls => SL (SI 0%Z :: map enc_log ls)
+  | DErr c => SL [SI 1%Z; sn c]
+  | DFail => SL [SI 1%Z; SI 99%Z]
+  end.
+
+Definition run_trans (w0 w1 : dworld) (tr : sx) : list sx :=
+  match tr with
+  | SL [SL [SI b; SI e; ad; tp; tk; trace]] =>
+      match dec_bound b, dec_bound e, sx_list_of sx_N ad, dec_topics tp, sx_nat tk, sx_list_of dec_rng trace with
+      | Some fb, Some lb, Some ad, Some tp, Some tick, Some tcs =>
+          let env_world := fun t : nat => if (tick <=? t)%nat then w1 else w0 in
+          let env_valid := fun t : nat => nth t tcs (0, 0) in
+          [SL [SI 9%Z; trace;
+               enc_dres (d_range_logs P idN idN (tab_row rowtab) (tab_col coltab) layers
+                                      env_world env_valid ad tp fb lb)]]
+      | _, _, _, _, _, _ => [SErr 6]
+      end
+  | _ => []
+  end.
+
+(* one stage; [prev] = the world of the previous stage; returns the stage's world too *)
+Definition run_stage (prev : option dworld) (s : sx) : option dworld * sx :=
+  let core h c ch qs tr :=
       match sx_N h, sx_N c, dec_chain ch with
       | Some history, Some cutoff, Some chain =>
           match build_index P idN idN (tab_row rowtab) (tab_col coltab) layers chain with
-          | None => SErr 5
+          | None => (None, SErr 5)
           | Some ix =>
               let head := N.of_nat (length chain) - 1 in
               let rg := idle_range P ix head history cutoff in
-              SL (SL [sn (r_bfirst rg); sn (r_bafter rg); sn (r_mfirst rg); sn (r_mafter rg)]
-                  :: map (run_query chain ix rg head cutoff) qs)
+              let w1 := mkDW chain ix rg in
+              (Some w1,
+               SL (SL [sn (r_bfirst rg); sn (r_bafter rg); sn (r_mfirst rg); sn (r_mafter rg)]
+                   :: map (run_query chain ix rg head cutoff) qs
+                   ++ match prev with Some w0 => run_trans w0 w1 tr | None => [] end))
           end
-      | _, _, _ => SErr 2 end
-  | _ => SErr 2
+      | _, _, _ => (None, SErr 2) end in
+  match s with
+  | SL [h; c; ch; SL qs; _] => core h c ch qs (SL [])
+  | SL [h; c; ch; SL qs; _; tr] => core h c ch qs tr
+  | _ => (None, SErr 2)
+  end.
+
+Fixpoint run_stages (prev : option dworld) (l : list sx) : list sx :=
+  match l with
+  | [] => []
+  | s :: r => let '(w, o) := run_stage prev s in o :: run_stages w r
   end.
 End Run.
 
@@ -123,7 +167,7 @@ Definition C40_run (c : sx) : sx :=
       match dec_params ps, sx_nat ly,
             sx_list_of (sx_list_of (sx_list_of sx_N)) rt, sx_list_of (sx_list_of sx_N) ct with
       | Some P, Some layers, Some rowtab, Some coltab =>
-          SL (map (run_stage P layers rowtab coltab) stages)
+          SL (run_stages P layers rowtab coltab None stages)
       | _, _, _, _ => SErr 1 end
   | _ => SErr 0
   end.
